@@ -157,6 +157,7 @@ type G struct {
 	selfCalls int
 	topCall   bool     // the call being generated is the whole right-hand side of a statement
 	cleanStr  bool     // string expressions must be ByteStrings
+	hidden    *Var     // a variable that must not be mentioned (the target of a multi-argument append)
 	pure      bool     // the function being generated must not have side effects visible outside
 	impure    bool     // … and this one turned out to have some
 	initFns   []string // bodies of init functions (plain/checked pairs rendered later)
@@ -197,7 +198,7 @@ func (g *G) visible(pred func(*Var) bool) []*Var {
 				continue
 			}
 			seen[v.Name] = true
-			if pred(v) {
+			if pred(v) && v != g.hidden {
 				res = append(res, v)
 			}
 		}
@@ -730,7 +731,7 @@ func (g *G) genCall(t Ty, d int) (E, bool) {
 	// the reads of variables in the same expression unspecified.
 	var cands []*Func
 	for _, f := range g.funcs {
-		if len(f.Rets) == 1 && f.Rets[0].K == t.K && (f.Rets[0].K != KPtr) && (f.Pure || g.topCall) {
+		if len(f.Rets) == 1 && f.Rets[0].K == t.K && (f.Rets[0].K != KPtr) && (f.Pure || (g.topCall && !g.pure)) {
 			cands = append(cands, f)
 		}
 	}
@@ -865,7 +866,7 @@ func (g *G) genStmt() E {
 	case 0: // define
 		ks := []Ty{tInt, tInt, tInt, tBool, tStr, tInts, tBytes, tMapII, tMapSI}
 		t := ks[g.r.Intn(len(ks))]
-		if len(g.structs) > 0 && g.r.Chance(1, 8) {
+		if len(g.structs) > 0 && g.r.Chance(1, 5) {
 			t = Ty{K: KPtr, S: g.structs[g.r.Intn(len(g.structs))]}
 		}
 		return g.genDefine(t)
@@ -1510,6 +1511,10 @@ func (g *G) genContainerStmt() E {
 	switch which {
 	case 0: // append to []int (only to a slice nothing else refers to: APPEND grows the shared array in the VM)
 		if v := g.pickMut(KInts, true); v != nil {
+			// the arguments of append(v, a, b) must not read v: the VM appends a before it evaluates b
+			// (known finding append-multi-arg-eval)
+			g.hidden = v
+			defer func() { g.hidden = nil }()
 			e := g.genInt(2)
 			g.f("stmt:append-ints")
 			v.Used = true
@@ -1668,10 +1673,12 @@ func (g *G) genReturn() E {
 		return s.E()
 	}
 	var ps, cs []string
-	old := g.noCalls
+	old, oldSafe := g.noCalls, g.safe
 	if g.hasDefer {
-		// docs/compiler.md: a panic inside the `return` statement of a function with defer is not supported
+		// docs/compiler.md: "defer and recover are supported except for the cases where panic occurs in return
+		// statement": the return statements of a function with defer contain nothing that can panic
 		g.noCalls = true
+		g.safe = true
 	}
 	for _, t := range g.cur.Rets {
 		var e E
@@ -1687,7 +1694,7 @@ func (g *G) genReturn() E {
 		}
 		ps, cs = append(ps, e.p), append(cs, e.c)
 	}
-	g.noCalls = old
+	g.noCalls, g.safe = old, oldSafe
 	s.pc("return "+strings.Join(ps, ", ")+"\n", "return "+strings.Join(cs, ", ")+"\n")
 	return s.E()
 }
